@@ -70,6 +70,9 @@ type c13Op struct {
 	V   *c13EtcdVal `json:"v,omitempty"`
 	Raw string      `json:"raw,omitempty"` // put: literal payload instead of V
 	U   string      `json:"u,omitempty"`
+	// what the implementation did at this op when the case was recorded (kept with the op so that
+	// it stays with it when the driver shrinks a case by deleting ops; not read on replay)
+	Out string `json:"out,omitempty"`
 }
 
 type c13Case struct {
@@ -81,7 +84,7 @@ type c13Case struct {
 	Edits    []string `json:"edits,omitempty"` // what the generator changed between configurations
 	Scenario string   `json:"scenario,omitempty"` // "stress-static" / "stress-etcd": concurrency run instead of ops
 	Ops      []c13Op  `json:"ops"`
-	Outs     []string `json:"outs,omitempty"`
+	Outs     []string `json:"-"` // observations of this run, in step with Ops (JSON: c13Op.Out)
 	Panic    string   `json:"panic,omitempty"`
 }
 
@@ -294,6 +297,7 @@ func c13UrlTable(c *c13Case) string {
 			var info BackendInformationEtcd
 			if json.Unmarshal(data, &info) == nil && info.Url != "" {
 				add(info.Url)
+				add(c13AddSlash(info.Url)) // the second clause of the predicate reads the slash-terminated URL
 			}
 		case "probe":
 			add(o.U)
@@ -483,6 +487,9 @@ func c13RunAll(t *testing.T, env verifEnv, cases []*c13Case) map[int]*c13StressR
 		byId[c.Id] = c
 		c.Outs = nil
 		c.Panic = ""
+		for i := range c.Ops {
+			c.Ops[i].Out = ""
+		}
 		c13Normalise(c)
 	}
 	rest := cases
@@ -1110,7 +1117,60 @@ func c13GenEtcd(seed int64, id int, stream string) *c13Case {
 			}
 		}
 	}
+	// Open finding C13/etcd/url-without-trailing-slash: a value whose URL does not end in "/"
+	// also accepts URLs that continue its last path segment.  The random streams stay outside
+	// that region (the directed witness 900103 is inside): a probe that continues the last
+	// segment of a slash-less URL written anywhere in the case is dropped.
+	var slashless []string
+	for i := range c.Ops {
+		if o := &c.Ops[i]; o.K == "put" {
+			data, _ := o.payload()
+			var info BackendInformationEtcd
+			if json.Unmarshal(data, &info) == nil && info.Url != "" {
+				if n := c13Norm(info.Url); n != "" && !strings.HasSuffix(n, "/") {
+					slashless = append(slashless, n)
+				}
+			}
+		}
+	}
+	if len(slashless) > 0 {
+		ops := c.Ops[:0:0]
+		for _, o := range c.Ops {
+			if o.K == "probe" && c13InFindingRegion(slashless, o.U) {
+				c.Edits = append(c.Edits, "probe-dropped-finding-region")
+				continue
+			}
+			ops = append(ops, o)
+		}
+		c.Ops = ops
+	}
 	return c
+}
+
+// c13Norm is the text the server compares: url.String() with a written-out standard port dropped.
+func c13Norm(s string) string {
+	u, err := url.Parse(s)
+	if err != nil {
+		return ""
+	}
+	if strings.Contains(u.Host, ":") && ((u.Scheme == "https" && u.Port() == "443") || (u.Scheme == "http" && u.Port() == "80")) {
+		u.Host = u.Hostname()
+	}
+	return u.String()
+}
+
+func c13InFindingRegion(slashless []string, probe string) bool {
+	q := c13Norm(probe)
+	if q == "" {
+		return false
+	}
+	q = c13AddSlash(q)
+	for _, c := range slashless {
+		if strings.HasPrefix(q, c) && !strings.HasPrefix(q, c+"/") {
+			return true
+		}
+	}
+	return false
 }
 
 // ---- directed cases: the histories of the confirmed defects and of the open finding -------
@@ -1163,6 +1223,33 @@ func c13Directed() []*c13Case {
 		{K: "init", C: cfg([]int{1, 2}, sec(1, "https://h1.example/a/"), sec(2, "https://h1.example/b/"))},
 		{K: "reload", C: cfg([]int{2}, sec(2, "https://h1.example/b/"))}},
 		probe("https://h1.example/a/x", "https://h1.example/b/x")...)})
+	// path-segment boundary: two (three) backends on one host whose paths share a string prefix but
+	// not a path prefix, the shorter one listed first and last, with and without trailing slash and
+	// with a written-out standard port; every URL must be accepted for its own backend only
+	seg := func(ids []int, slash string, port string) *c13Config {
+		return cfg(ids, sec(1, "https://cloud.example"+port+"/nextcloud"+slash), sec(2, "https://cloud.example"+port+"/nextcloud-test"+slash),
+			sec(3, "https://cloud.example"+port+"/nextcloud2"+slash))
+	}
+	segProbes := probe("https://cloud.example/nextcloud-test/ocs/v2.php/apps/spreed/api/v1/signaling/backend", "https://cloud.example/nextcloud-test",
+		"https://cloud.example/nextcloud/ocs/v2.php", "https://cloud.example/nextcloud", "https://cloud.example/nextcloud2/index.php", "https://cloud.example:443/nextcloud2",
+		"https://cloud.example/nextcloudx", "https://cloud.example/nextcloud-tes", "https://cloud.example/nextclou/x", "https://cloud.example/nextcloud-test2/x")
+	cs = append(cs, &c13Case{Id: 900009, Kind: 0, Mode: 1, Stream: "directed", Ops: append(append(append([]c13Op{
+		{K: "init", C: seg([]int{1, 2, 3}, "", "")}}, segProbes...),
+		append([]c13Op{{K: "reload", C: seg([]int{3, 2, 1}, "/", "")}}, segProbes...)...),
+		append([]c13Op{{K: "reload", C: seg([]int{2, 1, 3}, "", ":443")}}, segProbes...)...)})
+	putSeg := func(k int, path string) c13Op { return put(k, "https://cloud.example"+path, k) }
+	cs = append(cs, &c13Case{Id: 900010, Kind: 1, Mode: 1, Stream: "directed", Ops: append(append(append([]c13Op{
+		putSeg(1, "/nextcloud/"), putSeg(2, "/nextcloud-test/"), putSeg(3, "/nextcloud2/")}, segProbes...),
+		append([]c13Op{{K: "del", Key: 1}, putSeg(4, "/nextcloud/")}, segProbes...)...),
+		append([]c13Op{{K: "del", Key: 2}}, segProbes...)...)})
+	// OPEN FINDING: an etcd value whose URL does not end in "/" (the form of the example in
+	// server.conf.in) also accepts the URLs of a sibling whose path continues the last segment
+	cs = append(cs, &c13Case{Id: 900103, Kind: 1, Mode: 1, Stream: "directed", Finding: "C13/etcd/url-without-trailing-slash", Ops: append([]c13Op{
+		putSeg(1, "/nextcloud")},
+		probe("https://cloud.example/nextcloud/ocs/v2.php", "https://cloud.example/nextcloud-test/ocs/v2.php/apps/spreed/api/v1/signaling/backend")...)})
+	cs = append(cs, &c13Case{Id: 900104, Kind: 1, Mode: 1, Stream: "directed", Finding: "C13/etcd/url-without-trailing-slash", Ops: append([]c13Op{
+		putSeg(1, "/nextcloud"), putSeg(2, "/nextcloud-test")},
+		probe("https://cloud.example/nextcloud-test/ocs/v2.php", "https://cloud.example/nextcloud/ocs/v2.php")...)})
 	// OPEN FINDING: reload into / out of the deprecated modes is ignored
 	cs = append(cs, &c13Case{Id: 900101, Kind: 0, Mode: 1, Stream: "directed", Finding: "C13/static/reload/deprecated-mode", Ops: append([]c13Op{
 		{K: "init", C: &c13Config{Ids: []int{0}, Allowed: []string{"h1.example"}, Secret: 7}},
@@ -1279,6 +1366,9 @@ func TestVerifC13(t *testing.T) {
 		term, ok := c.coqTerm()
 		if !ok {
 			t.Fatalf("case %d: unknown op", c.Id)
+		}
+		for i := range c.Outs {
+			c.Ops[i].Out = c.Outs[i]
 		}
 		sink.count("stream_" + c.Stream)
 		for _, e := range c.Edits {
